@@ -2572,3 +2572,10 @@ theorem prefix_agrees (s : State) (env : Env) (hR : Rep env s) (hL : ∀ f, s.la
         · exact (hF7'.mono (by simp)).set (.inr (by decide)) _
 
 end Isotp.PyAgree.Tx
+
+#print axioms Isotp.PyAgree.Tx.standby_agrees
+#print axioms Isotp.PyAgree.Tx.transmit_cf_agrees
+#print axioms Isotp.PyAgree.Tx.before_start_agrees
+#print axioms Isotp.PyAgree.Tx.start_tx_agrees
+#print axioms Isotp.PyAgree.Tx.tail_agrees
+#print axioms Isotp.PyAgree.Tx.prefix_agrees
